@@ -105,9 +105,16 @@ impl<T: UsesLifetimes> UsesLifetimes for Option<T> {
     }
 }
 
+/// `'r#a` and `'a` are the same lifetime spelled two ways, so the `r#` is not compared.
 impl UsesLifetimes for Lifetime {
     fn uses_lifetimes<'a>(&self, _: &Options, lifetimes: &'a LifetimeSet) -> LifetimeRefSet<'a> {
-        lifetimes.iter().filter(|lt| *lt == self).collect()
+        use syn::ext::IdentExt;
+
+        let this = self.ident.unraw();
+        lifetimes
+            .iter()
+            .filter(|lt| lt.ident.unraw() == this)
+            .collect()
     }
 }
 
